@@ -52,8 +52,10 @@ def _nd_post(group, name, data, dtype, result, OLD):
             return True
         arr = np.asarray(data)
         stored = dset[OLD.old_len:]
-        if dset.dtype.kind in "ui" and arr.dtype.kind == "f" and not np.all(np.isfinite(arr)):
-            ctx.count("skipped_nonfinite_to_int_cast")
+        if dset.dtype.kind in "ui" and not representable(arr, dset.dtype):
+            # values that the documented integer type of the feature cannot hold: what is
+            # stored is decided by the HDF5 conversion; judged at the export level (C02)
+            ctx.count("skipped_unrepresentable_in_integer_dtype")
             return True
         with np.errstate(all="ignore"):
             exp = arr.astype(dset.dtype)
@@ -69,6 +71,41 @@ def _nd_post(group, name, data, dtype, result, OLD):
     except Exception as exc:  # monitor failure must not disturb dclab
         ctx.error("writer._nd_post", exc)
     return True
+
+
+def representable(arr, dtype):
+    """True if every value of arr is exactly representable in the integer dtype."""
+    arr = np.asarray(arr)
+    info = np.iinfo(dtype)
+    if arr.dtype.kind == "b":
+        return True
+    if arr.dtype.kind in "ui":
+        return bool(arr.size == 0 or (int(arr.min()) >= info.min and int(arr.max()) <= info.max))
+    if arr.dtype.kind == "f":
+        if not np.all(np.isfinite(arr)):
+            return False
+        with np.errstate(all="ignore"):
+            return bool(np.all(arr == np.floor(arr)) and (arr.size == 0 or (
+                arr.min() >= info.min and arr.max() <= float(info.max))))
+    return False
+
+
+def hdf5_int_conversion(arr, dtype):
+    """Model of the HDF5 library's conversion to an integer type: truncation towards zero
+    and clamping to the range of the destination."""
+    arr = np.asarray(arr)
+    info = np.iinfo(dtype)
+    if arr.dtype.kind == "f":
+        with np.errstate(all="ignore"):
+            t = np.trunc(arr)
+            t = np.where(np.isnan(t), 0, t)
+            t = np.clip(t, info.min, float(info.max))
+            out = np.where(t >= float(info.max), info.max, 0).astype(dtype)
+            small = t < float(info.max)
+            out[small] = t[small].astype(dtype)
+            return out
+    lo = np.clip(arr.astype(object), info.min, info.max)
+    return np.array(lo, dtype=dtype)
 
 
 def _first_bad(exp, stored):
